@@ -316,9 +316,11 @@ SHAPES = [
      + r"\}" + WS + r"ip->message_buf\[ip->message_producer\] = \*cp;" + WS + r"ip->message_producer = [^;]+;" + WS
      + r"ip->message_length\+\+;" + WS + r"\}", 1),
     ("add_message.tail", "src/comm.c", "add",
-     r"if \(ip->snoop_by\)" + WS + r"receive_snoop \(data, ip->snoop_by->ob\);" + WS + r"#ifdef FLUSH_OUTPUT_IMMEDIATELY" + WS
-     + r"flush_message \(ip\);" + WS + r"#else" + WS + r"if \(ip == all_users\[0\]\)[^{]*\{" + WS + r"flush_message \(ip\);" + WS + r"\}" + WS
-     + r"else" + WS + r"\{[^}]*async_runtime_modify \(g_runtime, ip->fd, EVENT_READ \| EVENT_WRITE, ip\);", 1),
+     r"#ifdef FLUSH_OUTPUT_IMMEDIATELY" + WS + r"flush_message \(ip\);" + WS + r"#else" + WS
+     + r"if \(ip == all_users\[0\]\)[^{]*\{" + WS + r"flush_message \(ip\);" + WS + r"\}" + WS
+     + r"else" + WS + r"\{[^}]*async_runtime_modify \(g_runtime, ip->fd, EVENT_READ \| EVENT_WRITE, ip\);" + WS + r"\}" + WS + r"#endif" + WS
+     + r"add_message_calls\+\+;" + WS + r"/\*(?:[^*]|\*(?!/))*\*/" + WS
+     + r"if \(ip->snoop_by\)" + WS + r"receive_snoop \(data, ip->snoop_by->ob\);" + WS + r"$", 1),
     ("add_vmessage.broken-break", "src/comm.c", "addv",
      r"if \(!flush_message \(ip\)\)" + WS + r"\{" + WS + r"debug_message \(\"Broken connection during add_message.\\n\"\);" + WS + r"break;", 2),
     ("add_vmessage.tail", "src/comm.c", "addv",
